@@ -48,3 +48,36 @@ def run(ctx, at_dispatch):
     ctx.extra["pickler_name_cases"] = len(cases)
     if spec_fails and not bad:
         ctx.notes.append("Pickling.tla predicts D9 but the code did not exhibit it in %d executions" % len(cases))
+
+
+def run_reducers(ctx):
+    """executor-level scoping: job_reducers change the pickling of that executor's tasks, result_reducers of its results
+    (defaulting to the job reducers), nothing else.  Expected values follow Pickling.tla's overlay rule."""
+    combos = [(None, None), ("a", None), ("a", "b"), (None, "b")]
+    cases = []
+    for k, (j, r) in enumerate(combos * 3):
+        u1 = [["submit", 1, "tagged"], ["submit", 2, "tagged"], ["wait_all"], ["shutdown", True, False]]
+        scn = dict(exec=dict(kind="plain", max_workers=2, timeout=None, job_reducers=j, result_reducers=r), users={"u1": u1}, fam="reducers")
+        cases.append(dict(i=k, scn=scn, policy=dict(kind="prio", tp=0.0, change=0.05), seed=ctx.seed * 17 + k, keep_decisions=False,
+                          expect=dict(seen=j or "plain", back=(r or j) or "plain")))
+    outs = exec_common.run_sim(ctx, cases, "rd", nshards=4)
+    for c, o in zip(cases, outs):
+        ctx.case(key="reducers:%s:%d" % (json.dumps(c["scn"]["exec"]), c["seed"]))
+        bad = None
+        n = 0
+        for e in o["trace"]:
+            if e["ev"] == "resolve":
+                n += 1
+                v = e.get("value", "")
+                want = "['tagged', %d, '%s', '%s']" % (e["t"], c["expect"]["seen"], c["expect"]["back"])
+                if e.get("outcome") != "result" or v != want:
+                    bad = "task %s: observed %s (%s), expected %s" % (e["t"], v, e.get("type"), want)
+        if n != 2 and not bad:
+            bad = "only %d of 2 tasks resolved" % n
+        if bad:
+            ctx.violation("C15 executor with job_reducers=%s result_reducers=%s: %s  ([.., seen by the worker, seen by the parent])" % (
+                c["scn"]["exec"]["job_reducers"], c["scn"]["exec"]["result_reducers"], bad),
+                dict(engine="E-SIM", case=c, why=bad, how="python -m engine.sim.harness"), signature=dict(kind="executor_reducers"))
+        else:
+            ctx.traces_validated += 1
+    ctx.extra["executor_reducer_cases"] = len(cases)
